@@ -650,6 +650,12 @@ func (bg *Reader) nextBlock() error {
 			if err == nil {
 				bg.keep(bg.current)
 				bg.current = nil
+			} else {
+				// Read-ahead stops after a failure. This one was for
+				// a block that is not wanted (any more), so restart
+				// read-ahead at the block that is.
+				bg.redirect(base)
+				i = -1
 			}
 		}
 		if !ok {
@@ -678,6 +684,12 @@ func (bg *Reader) nextBlock() error {
 // from the block following the current block. It must be called when the
 // current block was obtained from the cache rather than from read-ahead.
 func (bg *Reader) resync() {
+	bg.redirect(bg.current.NextBase())
+}
+
+// redirect directs the read-ahead goroutine, if there is one, to continue
+// from the block at next.
+func (bg *Reader) redirect(next int64) {
 	if bg.control == nil {
 		return
 	}
@@ -685,7 +697,7 @@ func (bg *Reader) resync() {
 	case <-bg.control:
 	default:
 	}
-	bg.control <- bg.current.NextBase()
+	bg.control <- next
 }
 
 // cacheSwap attempts to swap the current Block for a cached Block
